@@ -212,7 +212,7 @@ theorem add_general_direction_float {a b : Geonum F} (ha : a.angle.Inv) (hb : b.
     rw [abs_lt] at htq ⊢
     have hcε : 0 ≤ c * ε := mul_nonneg hc0 (le_of_lt hε0)
     constructor <;> nlinarith [htq.1, htq.2, hAerr.1, hAerr.2]
-  · obtain ⟨_, n, htq⟩ := new_radians_total_neg hfA hneg (by rw [abs_of_neg hneg] at hA41; linarith)
+  · obtain ⟨_, n, htq, _⟩ := new_radians_total_neg hfA hneg (by rw [abs_of_neg hneg] at hA41; linarith)
     refine ⟨n, ?_⟩
     have e14 : (14 * |val A| + 46) * (1 / 2 ^ 53) = (14 * |val A| + 46) * ε := by rw [hε]
     rw [e14] at htq
